@@ -196,6 +196,24 @@ def api_case(A, w, tier, rng, viols, cells):
                     'valid %r (len %d): position %d %r -> %r is still accepted' % (s[:80], L, p, ch, x),
                     dict(wit, valid=s, pos=p, repl=x))
     cells.add((name, min(L, 70), 'substitution'))
+    # characters that are not in the alphabet at all (same-valued digits of other scripts, other ASCII)
+    if L <= 24 and A.kw.get('alphabet'):
+        # only where the caller supplies the alphabet: membership in it is then the definition of a valid symbol
+        import unicodedata
+        for p in rng.sample(range(L), min(L, 3)):
+            ch = s[p]
+            outs = [c for c in ('\uff10', '\u0660', '\u0966', '\U0001d7ce', '\u00b2', '\u2460', '_', '+', '\u0131', '\u212a') if c not in A.check_alpha]
+            if ch.isdigit():
+                for base in (0xFF10, 0x0660, 0x0966, 0x1D7CE, 0x1D7D8):
+                    outs.append(chr(base + int(ch)))      # the same digit value in another script
+            for x in outs:
+                t = s[:p] + x + s[p + 1:]
+                evals += 1
+                if A.is_valid(t):
+                    add(viols, 'C06|%s|character-outside-alphabet-accepted' % name,
+                        'valid %r: position %d %r -> U+%04X (%s), not in the alphabet, is accepted' % (s[:60], p, ch, ord(x), unicodedata.name(x, '?')),
+                        dict(wit, valid=s, pos=p, repl=x))
+        cells.add((name, min(L, 70), 'outside-alphabet'))
     # adjacent transpositions
     claim = A.transposition_claim()
     if claim:
